@@ -355,28 +355,26 @@ def acks(out):
 
 
 def trace_points(log, datadir):
-    """system calls of the store thread after the START marker: list of (syscall name, k) with k = count of that name in that thread so far"""
-    lines = open(log).read().split("\n")
-    tid = None
-    for ln in lines:
-        m = re.match(r"(\d+) write\(1, \"START", ln)
-        if m:
-            tid = m.group(1)
-            break
-    if tid is None:
-        return []
-    counts, pts, started = {}, [], False
-    for ln in lines:
-        m = re.match(r"(\d+) (\w+)\(", ln)
-        if not m or m.group(1) != tid:
+    """system calls of the store thread after the START marker: list of (syscall name, k, text) with k = count of that name in that
+    thread so far.  The reference run is traced with -ff (one log per thread, no pid prefixes)."""
+    import glob
+    for f in glob.glob(log + ".*"):
+        lines = open(f).read().split("\n")
+        if not any(ln.startswith('write(1, "START') for ln in lines):
             continue
-        name = m.group(2)
-        counts[name] = counts.get(name, 0) + 1
-        if started:
-            pts.append((name, counts[name], ln[len(tid) + 1:][:110]))
-        if 'write(1, "START' in ln:
-            started = True
-    return pts
+        counts, pts, started = {}, [], False
+        for ln in lines:
+            m = re.match(r"(\w+)\(", ln)
+            if not m:
+                continue
+            name = m.group(1)
+            counts[name] = counts.get(name, 0) + 1
+            if started:
+                pts.append((name, counts[name], ln[:110]))
+            if ln.startswith('write(1, "START'):
+                started = True
+        return pts
+    return []
 
 
 def scenario_run(ctx, tool, sc, idx, limit=None, rng=None):
@@ -392,10 +390,20 @@ def scenario_run(ctx, tool, sc, idx, limit=None, rng=None):
         ctx.fail("correspondence", "crash helper failed in the prior phase", {"scenario": sc["name"], "err": err[-800:]})
         return []
     # reference trace
-    restore(snap, work)
     log = os.path.join(base, "ref.log")
-    rc, out, err = sh(["strace", "-f", "-e", "trace=" + TRACE, "-o", log, tool, "run", work, scf, "victim"])
-    pts = trace_points(log, work)
+    pts = []
+    for attempt in range(3):
+        restore(snap, work)
+        for old in os.listdir(base):
+            if old.startswith("ref.log"):
+                os.remove(os.path.join(base, old))
+        rc, out, err = sh(["strace", "-ff", "-e", "trace=" + TRACE, "-o", log, tool, "run", work, scf, "victim"])
+        pts = trace_points(log, work)
+        if pts:
+            break
+    if not pts:
+        ctx.fail("correspondence", "no system call of the victim phase could be enumerated (strace reference run)", {"scenario": sc["name"], "err": err[-500:]})
+        return []
     full_acks = acks(out)
     obs = []
     if len(full_acks) != len(sc["victim"]):
